@@ -44,7 +44,8 @@ ASSUMPTIONS = [
 ]
 
 SWITCH = 1e-12  # documented location of the small-r switch (grid/coulomb.py: _R_ZERO_THRESHOLD)
-REL = 1e-12  # pointwise error model: |lib - V_mp| <= REL * |V_mp|   (measured 6e-16: erf/r is a few ulp)
+REL = 1e-12  # pointwise error model: |lib - V_mp| <= REL * |V_mp| + TINY   (measured 6e-16: erf/r is a few ulp)
+TINY = 4 * 5e-324  # gradual underflow: results below 2.2e-308 (unnormalised, r > 1e293) are only exact to a subnormal ulp
 
 SYMBOLS = (
     "H He Li Be B C N O F Ne Na Mg Al Si P S Cl Ar K Ca Sc Ti V Cr Mn Fe Co Ni Cu Zn Ga Ge As Se Br Kr Rb Sr Y Zr Nb Mo "
@@ -120,7 +121,7 @@ def _compare_mp(ctx, kind, normalized, alpha, r, got, tag):
         if not np.isfinite(got):
             ctx.fail(f"{kind}-nonfinite", f"{tag}: library returned {got!r}, mp potential {mp.nstr(v, 17)}")
             return
-        tol = REL * abs(v)
+        tol = REL * abs(v) + TINY
         if kind == "s":
             _note(ctx, "s |lib-mp|/tol", float(abs(diff) / tol))
         if abs(diff) <= tol:
@@ -131,8 +132,9 @@ def _compare_mp(ctx, kind, normalized, alpha, r, got, tag):
         )
         if kind == "p":
             off = _offset(alpha, r, cm.total_charge("p", normalized, alpha))
-            _note(ctx, "p |lib-mp-offset|/tol", float(abs(diff - off) / (REL * (abs(mp.mpf(float(got))) + abs(off)))))
-            if abs(diff - off) <= REL * (abs(mp.mpf(float(got))) + abs(off)):
+            tol_k = REL * (abs(mp.mpf(float(got))) + abs(off)) + TINY
+            _note(ctx, "p |lib-mp-offset|/tol", float(abs(diff - off) / tol_k))
+            if abs(diff - off) <= tol_k:
                 ctx.known("KF-C17-ptype", "p-not-potential-of-documented-density", msg + " = true + 2 sqrt(a/pi) exp(-a r^2) Q")
                 return
             ctx.fail("p-not-potential-of-documented-density", msg + f"; NOT the recorded offset {mp.nstr(off, 10)}")
@@ -204,10 +206,10 @@ def body_pointwise(case, ctx):
         _compare_mp(ctx, kind, normalized, a, r, got[i], "pointwise")
         # far field: r V(r) = Q as soon as the density beyond r is below 1e-18 of the total
         if math.sqrt(a) * r >= 7.0:
-            ctx.close(r * got[i], float(q), 256 * EPS * float(q), f"{kind}-far-field-charge", f"r*V at r={r!r} alpha={a!r} normalized={normalized}")
+            ctx.close(r * got[i], float(q), 256 * EPS * float(q) + r * TINY, f"{kind}-far-field-charge", f"r*V at r={r!r} alpha={a!r} normalized={normalized}")
         # unnormalised = (charge of the unnormalised density) x normalised
         ref = float(q_un) * both[True][i]
-        ctx.close(both[False][i], ref, 256 * EPS * abs(ref), f"{kind}-unnormalised-factor", f"r={r!r} alpha={a!r}: factor should be {mp.nstr(q_un, 17)}")
+        ctx.close(both[False][i], ref, 256 * EPS * abs(ref) + TINY, f"{kind}-unnormalised-factor", f"r={r!r} alpha={a!r}: factor should be {mp.nstr(q_un, 17)}")
 
 
 # ---------------------------------------------------------------------------------------------
@@ -504,6 +506,9 @@ def subchecks(tier, seed):
         {"kind": "s", "normalized": True, "alpha": 1.0, "r": [0.0, 1e-13, 1e-12, 0.5, 1.0, 30.0], "input": "array"},
         {"kind": "s", "normalized": False, "alpha": 1e6, "r": [0.0, 1e-7, 1e-3, 1e8], "input": "list"},
         {"kind": "s", "normalized": True, "alpha": 1e-6, "r": [0.0, 9.99e-13, 1.0, 1e3, 1e8], "input": "scalar"},
+        # results in the subnormal range (Q/r < 2.2e-308): exact only to a subnormal ulp, covered by TINY
+        {"kind": "p", "normalized": False, "alpha": 1e6, "r": [1e299, 1e300], "input": "array"},
+        {"kind": "s", "normalized": False, "alpha": 1e5, "r": [1e299, 3e300], "input": "scalar"},
     ]
     pins_fd = [{"kind": "p", "normalized": True, "alpha": 1.0, "x": [0.3, 1.0, 2.0]}, {"kind": "s", "normalized": True, "alpha": 1.0, "x": [0.3, 1.0, 2.0]}]
     return [
